@@ -30,6 +30,10 @@ func main() {
 		os.Exit(2)
 	}
 	id, tier := os.Args[1], os.Args[2]
+	if tier == "--debug-alphabet" {
+		debugAlphabet()
+		return
+	}
 	f, ok := checks[id]
 	if !ok {
 		fmt.Fprintf(os.Stderr, "CHECK-BROKEN: no check %s in this group\n", id)
